@@ -1,6 +1,7 @@
 package rules
 
 import (
+	"go/types"
 	"go/token"
 	"strings"
 
@@ -132,13 +133,15 @@ func c11ParamFlow(e *Env) {
 	loadFn := e.FnQuiet(dagRel, "Load")
 	if sp != nil && loadFn != nil {
 		for _, name := range []string{"startCmd", "dryCmd"} {
-			root := sp.Func(name)
-			if root == nil {
+			// the command's body, found from its user-visible usage string
+			body := e.cobraBody(strings.TrimSuffix(name, "Cmd"))
+			if len(body) == 0 {
 				r.Unknown("cmd."+name, "-", "not found")
 				continue
 			}
+			root := body[0]
 			ok := false
-			for _, f := range ir.WithClosures(root) {
+			for _, f := range body {
 				for _, ci := range ir.CallsIn(f, func(c *ssa.CallCommon) bool { return c.StaticCallee() == loadFn }) {
 					fl := &ir.Flow{C: e.C, Through: func(c *ssa.Call) []int {
 						// a decoding helper of the command package applied to the flag's value
@@ -173,12 +176,12 @@ func c11ParamDecoders(e *Env) []*ssa.Function {
 	if sp == nil || loadFn == nil {
 		return nil
 	}
-	root := sp.Func("startCmd")
-	if root == nil {
+	body := e.cobraBody("start")
+	if len(body) == 0 {
 		return nil
 	}
 	var out []*ssa.Function
-	for _, f := range ir.WithClosures(root) {
+	for _, f := range body {
 		for _, ci := range ir.CallsIn(f, func(c *ssa.CallCommon) bool { return c.StaticCallee() == loadFn }) {
 			v := ir.Resolve(ci.Common().Args[2])
 			for d := 0; d < 4; d++ {
@@ -391,7 +394,7 @@ func c11OutputStore(e *Env) {
 				// NAME "=" TrimSpace(captured): a Sprintf("%s=%s", …) or a concatenation
 				okVal := false
 				{
-					tr := &ir.Tracer{C: e.C, Through: map[string]bool{"fmt.Sprintf": true},
+					tr := &ir.Tracer{C: e.C, Through: map[string]bool{"fmt.Sprintf": true}, Descend: e.repoDescend,
 						Up: func(f *ssa.Function) []ssa.CallInstruction {
 							if f == ex {
 								return nil
@@ -485,6 +488,20 @@ func c11OutputStore(e *Env) {
 func c11OutputVisibility(e *Env) {
 	r := e.R
 	r.Rule("C11.output-visibility", "VF/MPT", "shared output map installed on every node before execution; exported by process executors", 4)
+	// the graph's shared output map, by role: the ExecutionGraph field of the
+	// output-variable map's type
+	outMap := "outputVariables"
+	if sp := e.P.Pkg(schedRel); sp != nil {
+		if gt := sp.Type("ExecutionGraph"); gt != nil {
+			if st, ok := gt.Type().Underlying().(*types.Struct); ok {
+				for i := 0; i < st.NumFields(); i++ {
+					if strings.HasSuffix(ir.NamedType(st.Field(i).Type()), "dag.SyncMap") {
+						outMap = st.Field(i).Name()
+					}
+				}
+			}
+		}
+	}
 	sharedStore := func(f *ssa.Function, what string) {
 		ok := false
 		for _, g := range ir.WithClosures(f) {
@@ -495,7 +512,7 @@ func c11OutputVisibility(e *Env) {
 						continue
 					}
 					if fa, isFA := st.Addr.(*ssa.FieldAddr); isFA && ir.FieldNameOf(fa.X.Type(), fa.Field) == "OutputVariables" {
-						if e.IsFieldRead(st.Val, nil, "outputVariables") {
+						if e.IsFieldRead(st.Val, nil, outMap) {
 							// inside a loop over the nodes/steps
 							if ir.InnermostLoop(ir.Loops(g), b) != nil {
 								ok = true
@@ -522,7 +539,7 @@ func c11OutputVisibility(e *Env) {
 		for _, lf := range sortedFns(s.LoopFns) {
 			var stores []ir.StoreEvent
 			for _, ev := range e.C.FieldStores(lf, "OutputVariables") {
-				if ev.Val != nil && e.IsFieldRead(ir.Deep(ev.Val), nil, "outputVariables") {
+				if ev.Val != nil && e.IsFieldRead(ir.Deep(ev.Val), nil, outMap) {
 					stores = append(stores, ev)
 				}
 			}
@@ -572,8 +589,21 @@ func c11OutputVisibility(e *Env) {
 						// the callback collects the entries (appends) and the environment is stored into cmd.Env
 						if mc, isMC := ci.Common().Args[1].(*ssa.MakeClosure); isMC && envStored {
 							cb := mc.Fn.(*ssa.Function)
-							if len(ir.CallsIn(cb, func(c *ssa.CallCommon) bool { _, isA := isAppendCommon(c); return isA })) > 0 {
-								ok = true
+							// a method value (`m.Range(list.collect)`): the method behind the bound-method wrapper
+							cbs := []*ssa.Function{cb}
+							if cb.Synthetic != "" {
+								for _, b := range cb.Blocks {
+									for _, in := range b.Instrs {
+										if cc, isC := in.(ssa.CallInstruction); isC && cc.Common().StaticCallee() != nil {
+											cbs = append(cbs, cc.Common().StaticCallee())
+										}
+									}
+								}
+							}
+							for _, h := range cbs {
+								if len(ir.CallsIn(h, func(c *ssa.CallCommon) bool { _, isA := isAppendCommon(c); return isA })) > 0 {
+									ok = true
+								}
 							}
 						}
 						// the callback appends to cmd.Env
@@ -699,8 +729,8 @@ func c11Drain(e *Env, ex *ssa.Function) {
 	}
 	up := func(f *ssa.Function) []ssa.CallInstruction { return e.StaticCallSites(f) }
 	wrappers := map[string]bool{"io.LimitReader": true, "io.TeeReader": true, "bufio.NewReader": true, "bufio.NewReaderSize": true, "io.NewSectionReader": true, "io.MultiReader": true}
-	wide := &ir.Tracer{C: e.C, Through: wrappers, Descend: e.repoDescend, Up: up}
-	exact := &ir.Tracer{C: e.C, Through: map[string]bool{}, Descend: e.repoDescend, Up: up}
+	wide := &ir.Tracer{C: e.C, Through: wrappers, Descend: e.repoDescend, Up: up, Fields: e.helperObjectFields}
+	exact := &ir.Tracer{C: e.C, Through: map[string]bool{}, Descend: e.repoDescend, Up: up, Fields: e.helperObjectFields}
 	isRead := func(ls []ir.Leaf) (any, all bool) {
 		all = len(ls) > 0
 		for _, l := range ls {
@@ -913,6 +943,40 @@ func c11Classify(e *Env, v ssa.Value, depth int) (kind, what string, site ssa.Va
 		idx := paramIndex(x)
 		if len(sites) == 1 && idx >= 0 && idx < len(sites[0].Common().Args) {
 			return c11Classify(e, sites[0].Common().Args[idx], depth+1)
+		}
+	case *ssa.Call:
+		// an object built for this execution by a constructor of the repository
+		// (every return hands back a fresh allocation)
+		if g := x.Call.StaticCallee(); g != nil && e.P.Funcs[g] && g.Blocks != nil && g.Signature.Results().Len() == 1 {
+			fresh, n := true, 0
+			for _, b := range g.Blocks {
+				if rt, ok := b.Instrs[len(b.Instrs)-1].(*ssa.Return); ok {
+					n++
+					if _, isA := ir.Resolve(rt.Results[0]).(*ssa.Alloc); !isA {
+						fresh = false
+					}
+				}
+			}
+			if fresh && n > 0 {
+				return "local", "object built by " + shortName(g), x
+			}
+		}
+	case *ssa.Phi:
+		// `var c *T; if cond { c = newT() }`: the non-nil alternatives
+		var kind, what string
+		var site ssa.Value
+		for _, ed := range x.Edges {
+			if ir.IsNilConst(ed) {
+				continue
+			}
+			k, w, st := c11Classify(e, ed, depth+1)
+			if kind != "" && k != kind {
+				return "unknown", v.String(), nil
+			}
+			kind, what, site = k, w, st
+		}
+		if kind != "" {
+			return kind, what, site
 		}
 	}
 	return "unknown", v.String(), nil
